@@ -19,14 +19,17 @@ CONSTANTS IdSet,      \* ids that may be created: a set of atom sequences
           MaxCreate,  \* bound on Create calls (= number of distinct secrets)
           MaxWait,    \* bound on Wait steps
           Origins,    \* subset of {"lo4","lo6","ext4","ext6"}
-          Paths       \* subset of {"api","backup","restore","tokens"}
+          Paths,      \* subset of {"api","backup","restore","tokens"}
+          MaxTried    \* bound on the ghost set `tried`
 
 VARIABLES toks,    \* Seq([id, live, del]) one entry per Create call, in order
           now,     \* number of Wait steps so far
           authed,  \* set of [u, p, at]: pairs presented while they were a live token's pair
+          tried,   \* ghost: refused pairs presented earlier (makes the exploration repeat / vary
+                   \* requests after a refused one: the implementation has a cache the rule ignores)
           last     \* the last call with what the specification allows as its outcome
 
-vars == <<toks, now, authed, last>>
+vars == <<toks, now, authed, tried, last>>
 
 Local(o) == o \in {"lo4", "lo6"}
 LocalOnly(path) == path \in {"backup", "restore", "tokens"}
@@ -77,7 +80,7 @@ Class(c) ==
 (* the concatenation u \o p equals that of a pair authenticated within the current window *)
 CatAuthed(c) == c.has /\ \E a \in authed : a.at = now /\ Cat(a) = Cat(c)
 
-Init == /\ toks = <<>> /\ now = 0 /\ authed = {}
+Init == /\ toks = <<>> /\ now = 0 /\ authed = {} /\ tried = {}
         /\ last = [op |-> "init"]
 
 Create(i) ==
@@ -85,22 +88,24 @@ Create(i) ==
   /\ \A k \in K : toks[k].live => toks[k].id # i
   /\ toks' = Append(toks, [id |-> i, live |-> TRUE, del |-> 0])
   /\ last' = [op |-> "create", id |-> i, k |-> Len(toks) + 1]
-  /\ UNCHANGED <<now, authed>>
+  /\ UNCHANGED <<now, authed, tried>>
 
 Delete(k) ==
   /\ toks[k].live
   /\ toks' = [toks EXCEPT ![k].live = FALSE, ![k].del = now]
   /\ last' = [op |-> "delete", id |-> toks[k].id, k |-> k]
-  /\ UNCHANGED <<now, authed>>
+  /\ UNCHANGED <<now, authed, tried>>
 
 Wait ==
   /\ now < MaxWait
   /\ now' = now + 1
   /\ last' = [op |-> "wait"]
-  /\ UNCHANGED <<toks, authed>>
+  /\ UNCHANGED <<toks, authed, tried>>
 
 Request(o, path, c) ==
   /\ authed' = IF LiveTok(c) THEN authed \cup {[u |-> c.u, p |-> c.p, at |-> now]} ELSE authed
+  /\ tried' = IF c.has /\ ~LiveTok(c) /\ Cardinality(tried) < MaxTried
+                THEN tried \cup {[u |-> c.u, p |-> c.p]} ELSE tried
   /\ last' = [op |-> "request", origin |-> o, path |-> path, has |-> c.has, u |-> c.u, p |-> c.p,
               allow |-> Allowed(o, path, c), cls |-> Class(c), catauthed |-> CatAuthed(c)]
   /\ UNCHANGED <<toks, now>>
@@ -134,5 +139,10 @@ NoResplit == (last.op = "request" /\ ~Local(last.origin) /\ last.cls \in {"respl
 (* secrets are fresh: no two tokens share a concatenation unless they are the same token *)
 FreshSecrets == \A j, k \in K : j # k => Cat(Pair(j)) # Cat(Pair(k))
 
-View == <<toks, now, authed>>
+View == <<toks, now, authed, tried>>
+
+(* constant values for the configurations (tuples cannot be written in a cfg file) *)
+Ids2 == {<<"a", "b">>, <<"a">>}
+Ids3 == {<<"a", "b">>, <<"a">>, <<"b">>}
+IdZ == <<"z">>
 =============================================================================
